@@ -166,6 +166,18 @@ Definition ers_ctx (sn : ers_snapshot) : option sync_ctx :=
       end
   end.
 
+(** The Canary-Failed mark is the only durable record of a failure: whatever role a replica set has, short of being
+    the active one, a reconcile of it never writes a status that lost the mark. *)
+Definition mon_failed_sticky (sn : ers_snapshot) (obs : ers_obs) (code : N) : list N :=
+  match ers_ctx sn with
+  | None => []
+  | Some cx =>
+      match cx_role cx, ob_status obs with
+      | RoleActive, _ | _, None => []
+      | _, Some st => code_if (negb (canary_failed_rs (r_status (sn_rs sn))) || is_cond_true (rs_conds st) CT_CanaryFailed) code
+      end
+  end.
+
 (** The rolling plan of the active role, recomputed for the monitors. *)
 Definition ers_rolling (sn : ers_snapshot) (cx : sync_ctx) : option rolling_plan :=
   match cx_role cx with
